@@ -265,7 +265,8 @@ def rule_sets():
         [['cg', 'KR'], ['cg', 'D']], [['lb', 'K'], ['la', 'K']], [['name', 'lys-n'], ['name', 'lys-c']],
         [['name', 'trypsin/P'], ['name', 'lys-n']], [['name', 'trypsin'], ['name', 'asp-n'], ['name', 'glu-c']],
         [['lit', 'KP'], ['la', 'E'], ['cc', 'R']], [['lb', 'KRPDEA']], [['la', 'KRPDEA']], [['name', 'non-specific'], ['lb', 'K']],
-        [['lbneg', 'DE', 'A'], ['lit', 'PP']],
+        [['lbneg', 'DE', 'A'], ['lit', 'PP']], [['lb', 'K'], ['name', 'non-specific']], [['name', 'lys-c'], ['la', 'D'], ['name', 'non-specific']],
+        [['name', 'no-cleave'], ['name', 'trypsin']],
     ]
     return named + user
 
@@ -299,6 +300,7 @@ def random_strategy():
     rule = st.one_of(
         st.sampled_from(sorted(refchem.PROTEASES)).map(lambda k: ['name', k]),
         st.sampled_from(sorted(refchem.PROTEASES)).map(lambda k: ['name', k]),
+        st.sampled_from(sorted(refchem.PROTEASES) * 6 + ['non-specific', 'no-cleave']).map(lambda k: ['name', k]),
         sset.map(lambda s: ['lb', s]), sset.map(lambda s: ['la', s]),
         st.tuples(sset, st.sampled_from(letters)).map(lambda t: ['lbneg', t[0], t[1]]),
         sset.map(lambda s: ['cg', s]), sset.map(lambda s: ['cc', s]),
